@@ -175,6 +175,68 @@ def c17_escape_class(cls: int, cp: int, nxt: int) -> bool:
     return ok
 
 
+# ---------------------------------------------------------------- long documentation texts
+def c_decode_adjacent(body):
+    """as c_decode for a sequence of adjacent string literals `"..." "..."` (body = text between the first opening and the
+    last closing quote): a compiler decodes every literal on its own (an escape sequence never continues into the next
+    literal) and concatenates the results; None if any piece is ill-formed"""
+    pieces, cur, i, n = [], "", 0, len(body)
+    while i < n:
+        c = body[i]
+        if c == "\\" and i + 1 < n:
+            cur += body[i:i + 2]
+            i += 2
+            continue
+        if c == '"':
+            j = i + 1
+            while j < n and body[j] in " \t\n":
+                j += 1
+            if j >= n or body[j] != '"':
+                return None
+            pieces.append(cur)
+            cur = ""
+            i = j + 1
+            continue
+        cur += c
+        i += 1
+    pieces.append(cur)
+    out = []
+    for piece in pieces:
+        d = c_decode(piece)
+        if d is None:
+            return None
+        out += d
+    return out
+
+
+LONG_CHARS = ["\x7f", "\x01", '"', "\\", "\n", "\xe9", "?", "0", "\U0001F600"]
+LONG_LENGTHS = [300, 1100, 4200, 17000, 66000]
+
+
+def c17_long_text(length: int, off: int, ch: int, mix: int) -> bool:
+    """
+    Documentation of realistic and of extreme length (300 ... 66000 characters, beyond every compiler's limit for ONE
+    literal): 0-3 ordinary characters followed by a run of one character that needs an escape (or does not), or of that
+    character alternating with a digit. Whether the text is emitted as one literal or as several adjacent ones, the
+    compiler's decoding — each literal on its own, then concatenated — gives exactly the text: an escape sequence cut by
+    a literal boundary at ANY multiple of any chunk size would show for one of the four offsets.
+    pre: 0 <= length < len(LONG_LENGTHS) and 0 <= off <= 3 and 0 <= ch < len(LONG_CHARS) and 0 <= mix <= 1
+    post: _
+    """
+    length, off, ch, mix = pick(length, 0, len(LONG_LENGTHS)), pick(off, 0, 4), pick(ch, 0, len(LONG_CHARS)), pick(mix, 0, 2)
+    with concrete():
+        unit = LONG_CHARS[ch] + ("7" if mix else "")
+        text = "abc"[:off] + unit * (LONG_LENGTHS[length] // len(unit))
+        lit = _literal_for(text)
+        got = c_decode_adjacent(lit) if lit is not None else None
+        ok = got == utf8_text(text)
+        if not ok:
+            where = next((k for k, (a, b) in enumerate(zip(got or [], utf8_text(text))) if a != b), None)
+            _fail(text_length=len(text), unit=unit, offset=off, first_wrong_byte=where, literal_around=(lit or "")[max(0, (where or 0) * 2 - 40):(where or 0) * 4 + 40][:200])
+    reached({"length": LONG_LENGTHS[length], "off": off, "ch": ch, "mix": mix})
+    return ok
+
+
 # ---------------------------------------------------------------- overload selection on real Element trees
 def mk_member(name, params, brief, pdocs=False):
     md = ET.Element("memberdef", {"kind": "function"})
@@ -492,6 +554,8 @@ def conds(tier):
                 bounds="all texts of length <= %d over all Unicode scalar values" % (2 if q else 3)),
         xh.Cond(M, "c17_escape_class", t(300, 1800), examples=["cls=0, cp=7, nxt=11", "cls=2, cp=160, nxt=10", "cls=6, cp=128512, nxt=22", "cls=1, cp=92, nxt=23"],
                 bounds="7 code-point classes x symbolic code point in the class x %d following characters (hex digits, quote, backslash, ?, other)" % len(FOLLOW)),
+        xh.Cond(M, "c17_long_text", t(240, 900), kind="shape-bounded", examples=["length=2, off=1, ch=0, mix=0", "length=4, off=0, ch=1, mix=1", "length=0, off=3, ch=2, mix=0", "length=3, off=2, ch=8, mix=1"],
+                bounds="5 lengths (300 ... 66000 characters) x 4 offsets x 9 characters (DEL, control, quote, backslash, newline, 2- and 4-byte UTF-8, ?, digit) x run / alternating with a digit; adjacent literals decoded piecewise"),
         xh.Cond(M, "c17_overloads", t(300, 1800), examples=["shape=0, q=0, sym='id'", "shape=4, q=1, sym='id'", "shape=9, q=0, sym='zz'", "shape=12, q=0, sym='a'", "shape=13, q=2, sym='a'", "shape=14, q=1, sym='b'", "shape=15, q=0, sym='a'", "shape=16, q=2, sym='a'", "shape=16, q=3, sym='a'", "shape=15, q=1, sym='a'"],
                 bounds="17 member-definition shapes (with per-parameter documentation; default values as text, as a cross-reference element, empty) x 12 queries x symbolic parameter name (len <= 3)"),
         xh.Cond(M, "c17_xml_folder", t(120, 600), kind="shape-bounded", examples=["kind=0, pos=0, target=0", "kind=1, pos=2, target=0", "kind=2, pos=3, target=2", "kind=3, pos=1, target=1"],
